@@ -131,6 +131,9 @@ def make_param(eng, kind, hint):
         return eng.fresh_optrid(hint)
     if kind == "slice":
         return SV(None, "slice")
+    if kind == "keyset":
+        from .values import AbstractKeySet
+        return AbstractKeySet()
     if kind.startswith("sol:"):
         from . import solth as SO
         return SO.make(eng, kind[4:], hint)
@@ -217,6 +220,9 @@ def value_matches_kind(eng, v, kind):
         return isinstance(v, SV) and v.t == "slice"
     if kind == "rid":
         return isinstance(v, SV) and v.t == "rid"
+    if kind == "keyset":
+        from .values import AbstractKeySet
+        return isinstance(v, AbstractKeySet)
     if kind.startswith("sol:"):
         from . import solth as SO
         return isinstance(v, SO.SolVal) and v.view is None and v.container == kind[4:]
